@@ -43,6 +43,67 @@ func (c *Ctx) canonicalFlows(fn *ssa.Function, canon string, want map[string]str
 	}
 }
 
+// voteSignBytesRules: what a vote signature binds. Shared by C11 (signatures bind the message) and C02 (a tally for a block
+// id, height, round and type counts only signatures made for exactly that): every field of the canonical vote is filled
+// from the vote, the canonical block id carries the hash and the whole part-set header, and VoteSignBytes encodes that
+// canonical vote.
+func voteSignBytesRules(c *Ctx) {
+	c.canonicalFlows(c.Fn("types", "", "CreateCanonicalVote"), "proto/kardiachain/types.CanonicalVote", map[string]string{
+		"Type": `^vote\.Type$`, "Height": `^vote\.Height$`, "Round": `^vote\.Round$`, "BlockID": `^call:types\.CanonicalizeBlockID\(vote\.BlockID\)$`,
+		"Timestamp": `^vote\.Timestamp$`, "ChainID": `^chainID$`})
+	if fn := c.Fn("types", "", "CanonicalizeBlockID"); fn != nil {
+		got := map[string]string{}
+		for _, in := range findInstrs(fn, StoreTo(`^&alloc:complit:proto/kardiachain/types\.CanonicalBlockID\.`)) {
+			st := in.(*ssa.Store)
+			f := pathOf(st.Addr)
+			got[f[strings.LastIndex(f, ".")+1:]] = pathOf(st.Val)
+		}
+		c.Check("F", fnName(fn)+"/Hash from bid.Hash", got["Hash"] == "bid.Hash", fn.Pos(), 1, got["Hash"])
+		c.Check("F", fnName(fn)+"/PartSetHeader from bid.PartSetHeader", got["PartSetHeader"] == "call:types.CanonicalizePartSetHeader(bid.PartSetHeader)", fn.Pos(), 1, got["PartSetHeader"])
+	}
+	if fn := c.Fn("types", "", "CanonicalizePartSetHeader"); fn != nil {
+		// either the whole-struct conversion or a literal filling every field from the like-named field
+		ok := false
+		for _, in := range findInstrs(fn, AnyReturn()) {
+			ok = pathOf(in.(*ssa.Return).Results[0]) == "psh"
+		}
+		if !ok {
+			got := map[string]string{}
+			for _, in := range findInstrs(fn, func(in ssa.Instruction) bool { _, is := in.(*ssa.Store); return is }) {
+				st := in.(*ssa.Store)
+				if fa, is := st.Addr.(*ssa.FieldAddr); is && strings.HasSuffix(fa.X.Type().String(), "proto/kardiachain/types.CanonicalPartSetHeader") {
+					f := pathOf(st.Addr)
+					got[f[strings.LastIndex(f, ".")+1:]] = pathOf(st.Val)
+				}
+			}
+			ok = len(got) > 0
+			for _, f := range c.namedFields("proto/kardiachain/types.CanonicalPartSetHeader") {
+				ok = ok && got[f] == "psh."+f
+			}
+		}
+		c.Check("F", fnName(fn)+"/carries every field of the part-set header", ok, fn.Pos(), 1, "")
+		// the two struct types have the same field lists
+		a, b := c.namedFields("proto/kardiachain/types.PartSetHeader"), c.namedFields("proto/kardiachain/types.CanonicalPartSetHeader")
+		c.Check("F", fnName(fn)+"/canonical header has Total and Hash", strings.Join(a, ",") == strings.Join(b, ",") && len(a) >= 2, fn.Pos(), 2, strings.Join(a, ",")+" vs "+strings.Join(b, ","))
+	}
+	signBytesFn(c, "VoteSignBytes", "CreateCanonicalVote(chainID, vote)")
+}
+
+func signBytesFn(c *Ctx, name, canon string) {
+	if fn := c.Fn("types", "", name); fn != nil {
+		n := len(findInstrs(fn, CallTo(`^types\.CreateCanonical`, "types."+strings.ReplaceAll(strings.ReplaceAll(canon, "(", `\(`), ")", `\)`))))
+		c.Check("F", fnName(fn)+"/encodes "+canon, n == 1, fn.Pos(), n, "")
+		m := findInstrs(fn, CallTo(`^lib/protoio\.MarshalDelimited$`, ""))
+		ok := len(m) == 1
+		for _, in := range findInstrs(fn, AnyReturn()) {
+			if !strings.HasPrefix(pathOf(in.(*ssa.Return).Results[0]), "call:lib/protoio.MarshalDelimited(") {
+				ok = false
+			}
+		}
+		c.Check("F", fnName(fn)+"/returns the marshalled canonical message", ok, fn.Pos(), len(m), "")
+	}
+}
+
 func runC11(c *Ctx) {
 	c.Decided = []string{
 		"every field of the canonical vote/proposal (chain id, type, height, round, POL round, block id, timestamp) is filled from the corresponding field of the message being signed or verified; proposal type constant differs from the vote types",
@@ -55,9 +116,7 @@ func runC11(c *Ctx) {
 	c.Floors["G"] = 12
 
 	// ---- canonical vote / proposal ----------------------------------------------------------------
-	c.canonicalFlows(c.Fn("types", "", "CreateCanonicalVote"), "proto/kardiachain/types.CanonicalVote", map[string]string{
-		"Type": `^vote\.Type$`, "Height": `^vote\.Height$`, "Round": `^vote\.Round$`, "BlockID": `^call:types\.CanonicalizeBlockID\(vote\.BlockID\)$`,
-		"Timestamp": `^vote\.Timestamp$`, "ChainID": `^chainID$`})
+	voteSignBytesRules(c)
 	propT := c.P.Const("proto/kardiachain/types", "ProposalType")
 	c.canonicalFlows(c.Fn("types", "", "CreateCanonicalProposal"), "proto/kardiachain/types.CanonicalProposal", map[string]string{
 		"Type": `^const:` + propT + `$`, "Height": `^proposal\.Height$`, "Round": `^proposal\.Round$`, "POLRound": `^proposal\.PolRound$`,
@@ -65,40 +124,7 @@ func runC11(c *Ctx) {
 	pv, pc := c.P.Const("proto/kardiachain/types", "PrevoteType"), c.P.Const("proto/kardiachain/types", "PrecommitType")
 	c.Check("T", "ProposalType differs from PrevoteType and PrecommitType (domain separation)", propT != "" && propT != pv && propT != pc && pv != pc && pv != "", c.fnPos("types.CreateCanonicalProposal"), 3,
 		fmt.Sprintf("ProposalType=%s PrevoteType=%s PrecommitType=%s", propT, pv, pc))
-	if fn := c.Fn("types", "", "CanonicalizeBlockID"); fn != nil {
-		got := map[string]string{}
-		for _, in := range findInstrs(fn, StoreTo(`^&alloc:complit:proto/kardiachain/types\.CanonicalBlockID\.`)) {
-			st := in.(*ssa.Store)
-			f := pathOf(st.Addr)
-			got[f[strings.LastIndex(f, ".")+1:]] = pathOf(st.Val)
-		}
-		c.Check("F", fnName(fn)+"/Hash from bid.Hash", got["Hash"] == "bid.Hash", fn.Pos(), 1, got["Hash"])
-		c.Check("F", fnName(fn)+"/PartSetHeader from bid.PartSetHeader", got["PartSetHeader"] == "call:types.CanonicalizePartSetHeader(bid.PartSetHeader)", fn.Pos(), 1, got["PartSetHeader"])
-	}
-	if fn := c.Fn("types", "", "CanonicalizePartSetHeader"); fn != nil {
-		ok := false
-		for _, in := range findInstrs(fn, AnyReturn()) {
-			ok = pathOf(in.(*ssa.Return).Results[0]) == "psh"
-		}
-		c.Check("F", fnName(fn)+"/is a whole-struct conversion", ok, fn.Pos(), 1, "")
-		// the two struct types have the same field lists
-		a, b := c.namedFields("proto/kardiachain/types.PartSetHeader"), c.namedFields("proto/kardiachain/types.CanonicalPartSetHeader")
-		c.Check("F", fnName(fn)+"/canonical header has Total and Hash", strings.Join(a, ",") == strings.Join(b, ",") && len(a) >= 2, fn.Pos(), 2, strings.Join(a, ",")+" vs "+strings.Join(b, ","))
-	}
-	for name, canon := range map[string]string{"VoteSignBytes": "CreateCanonicalVote(chainID, vote)", "ProposalSignBytes": "CreateCanonicalProposal(chainID, p)"} {
-		if fn := c.Fn("types", "", name); fn != nil {
-			n := len(findInstrs(fn, CallTo(`^types\.CreateCanonical`, "types."+strings.ReplaceAll(strings.ReplaceAll(canon, "(", `\(`), ")", `\)`))))
-			c.Check("F", fnName(fn)+"/encodes "+canon, n == 1, fn.Pos(), n, "")
-			m := findInstrs(fn, CallTo(`^lib/protoio\.MarshalDelimited$`, ""))
-			ok := len(m) == 1
-			for _, in := range findInstrs(fn, AnyReturn()) {
-				if !strings.HasPrefix(pathOf(in.(*ssa.Return).Results[0]), "call:lib/protoio.MarshalDelimited(") {
-					ok = false
-				}
-			}
-			c.Check("F", fnName(fn)+"/returns the marshalled canonical message", ok, fn.Pos(), len(m), "")
-		}
-	}
+	signBytesFn(c, "ProposalSignBytes", "CreateCanonicalProposal(chainID, p)")
 
 	// ---- sign = verify ------------------------------------------------------------------------------
 	signRe := func(bytesFn, chain, msg string) string {
